@@ -320,7 +320,7 @@ class MS:
         elif op == 'idle':
             tag = c.next_tag()
             raw = c.raw_send(tag + b' IDLE\r\n')
-            if raw.endswith(b'+ Idling.\r\n'):
+            if b'+ Idling.\r\n' in raw:   # updates may follow at once
                 self.idling[k] = tag
                 for r in c.parse(raw):
                     c.shadow.apply(r)
